@@ -20,3 +20,17 @@ PROPS = {
                             "order-independence from an ABSENT key is claimed for cutoff 0 (sweeper disabled); with a cutoff the exact rule is C02_cutoff_fold and C02_cutoff_order_refuted shows the limit (required by C04)"],
             "trusted_base": ["modelled: syncer/iterators.go NewNativeIterator gates, Merge, Clean, addHeader, PlainIterator; snapshot/flags.go MaskedFlags; header.Parse"]},
 }
+
+# fragments: bin/props.d/*.py may define AREAS_ADD / PROPS_ADD
+import glob as _glob, os as _os
+for _f in sorted(_glob.glob(_os.path.join(_os.path.dirname(__file__), "props.d", "*.py"))):
+    _ns = {"LMDB_TRUST": LMDB_TRUST}
+    exec(compile(open(_f).read(), _f, "exec"), _ns)
+    AREAS.update(_ns.get("AREAS_ADD", {}))
+    for _k, _v in _ns.get("PROPS_ADD", {}).items():
+        if _k in PROPS:
+            PROPS[_k]["areas"] = PROPS[_k]["areas"] + [a for a in _v.get("areas", []) if a not in PROPS[_k]["areas"]]
+            for _kk in ("assumptions", "trusted_base"):
+                PROPS[_k][_kk] = PROPS[_k].get(_kk, []) + _v.get(_kk, [])
+        else:
+            PROPS[_k] = _v
